@@ -13,6 +13,7 @@ package bitcoin
 //@   ensures result <==> (bip66(sig) && len(digest) == 32 && dersig(sig[0:len(sig)-1]) && dersig_s(sig[0:len(sig)-1]) <= HALFN && ecdsa_ok(fn(os2ip(digest[0:32])), fn(dersig_r(sig[0:len(sig)-1])), fn(dersig_s(sig[0:len(sig)-1])), abs(k.point)))
 //@
 //@ type SchnorrPublicKey
+//@   public *
 //@   inv !isnil(self.point) && self.point.isValid && abs(self.point) != O && lift(affy(abs(self.point))) % 2 == 0
 //@   inv len(self.xBytes) == 32 && os2ip(self.xBytes[0:32]) == lift(affx(abs(self.point)))
 //@
@@ -34,14 +35,24 @@ package bitcoin
 //@   ensures result <==> (len(sig) == 64 && bip340_ok(os2ip(k.xBytes[0:32]), abs(k.point), bstr(msg), os2ip(sig[0:32]), os2ip(sig[32:64])))
 //@
 //@ type SchnorrPrivateKey
+//@   public publicKey
 //@   inv !isnil(self.dPrime) && !isnil(self.d) && !isnil(self.publicKey) && val(self.dPrime) != 0 && val(self.d) != 0
 //@   inv abs(self.publicKey.point) == smul(val(self.d), G) && (val(self.d) == val(self.dPrime) || val(self.d) == 0 - val(self.dPrime))
 //@
 //@ func verifySchnorrSelf
 //@   props C14
 //@   inline
+//@   ct
+//@   public pkXBytes, msg, sig
+//@   declassify R: R = (s - e*d)*G is the published nonce point whenever the signature is well formed; the outcome of the comparison is the public accept / reject decision of the self-check
 //@
 //@ func signSchnorr
+//@   ct
+//@   public msg
+//@   declassify call IsZero: k' = 0 aborts; it reveals only that this (negligible) event happened
+//@   declassify call SplitUncompressedPoint: x(R) is published in the signature; the parity of y(R) decides the sign of k and is not published -- see DESIGN 10.5 (C17)
+//@   declassify sig: the signature is the published output (the self-check runs on it)
+//@   declassify call verifySchnorrSelf: the outcome of the self-check is public
 //@   props C14
 //@   option digits
 //@   split case result1 == nil
@@ -57,6 +68,9 @@ package bitcoin
 //@   fresh result0
 //@
 //@ func (*SchnorrPrivateKey).Sign
+//@   ct
+//@   public msg
+//@   declassify err: whether the entropy source failed is public
 //@   props C14
 //@   option digits
 //@   split nil rand
@@ -90,6 +104,7 @@ package bitcoin
 //@   fresh result0
 //@
 //@ func NewSchnorrPrivateKeyFromECDSA
+//@   ct
 //@   props C14 C18
 //@   requires !isnil(sk)
 //@   ensures val(result.dPrime) == val(sk.scalar) && fresh(result.dPrime) && fresh(result.d) && fresh(result.publicKey)
@@ -112,11 +127,13 @@ package bitcoin
 //@   ensures result == k.publicKey
 //@
 //@ func (*SchnorrPrivateKey).Bytes
+//@   ct
 //@   props C14 C18
 //@   ensures len(result) == 32 && os2ip(result) == lift(val(k.dPrime))
 //@   fresh result
 //@
 //@ func (*SchnorrPrivateKey).Scalar
+//@   ct
 //@   props C14 C18
 //@   ensures val(result) == val(k.dPrime)
 //@   fresh result
